@@ -605,6 +605,10 @@ def main():
                    'rotations x windings x closed/open input (all in thorough, sampled in quick); the same with 1..2 holes '
                    '(polygon holes of both orientations, box holes); boxes with/without holes; random star-shaped polygons with '
                    'coordinates <= 1000 queried on vertices, edge midpoints, level with vertices and at random half-grid points; '
+                   'the same rings, holes and grid / half-grid queries placed at continental / hemispheric scales (23 placements: '
+                   'longitude extents 160..352 degrees - below, exactly and above 180 - mostly eastern, mostly western and straddling '
+                   'the prime meridian, never crossing +-180; long edges carry intermediate collinear vertices so that no edge spans more '
+                   'than 180 degrees; boxes wider than a hemisphere against the exact reference only); '
                    'find_line_intersection on random small segments. Non-trivial = distinct (shape variant, query) with the '
                    'query on a boundary or level with a vertex.',
               assumptions=['IEEE double arithmetic of the implementation is exact on the integer/half-integer grids used (DESIGN section 3)',
